@@ -86,6 +86,10 @@ def oracle(case, out):
     if case['kind'] == 'conn':
         return NC.conn_oracle(case['ops'], out)
     steps, fin = out['steps'], out['fin']
+    for i, s in enumerate(steps):
+        if s.get('blocked'):
+            return ('step %d: recv() was called on the blocking/timeout-mode socket %s with nothing to read: the call blocks the '
+                    'whole event loop and ends in an uncaught socket.timeout' % (i, s['blocked']))
     if not any(s['established'] for s in steps):
         return None                      # no proxied exchange was established: nothing to relay
     is_tunnel = first_request(case, out).startswith(b'CONNECT ')
